@@ -7,7 +7,7 @@ TLC evaluates them, checks on the model that NR counts the records taken, and ex
 The harness runs them with real files and operands.  Trace_MainLoop validates random programs recorded from the
 real interpreter.
 """
-import copy
+import copy, os
 
 
 def corrupt(case, rnd):
@@ -24,6 +24,21 @@ def corrupt_event(ev, rnd):
     return e
 
 
+def corrupt_cli(case, rnd):
+    c = copy.deepcopy(case)
+    e = c['expect']
+    if e['kind'] == 'run':
+        e['out'] = e['out'] + [122]
+        return c
+    if e['kind'] == 'error':
+        e['kind'] = 'version'
+        return c
+    if e['kind'] == 'version':
+        e['kind'] = 'error'
+        return c
+    return None
+
+
 def run(ctx):
     q = ctx.quick
     ctx.rule = ('a case is one AWK program with an operand list, file contents and standard input: families body (18 commands '
@@ -36,6 +51,9 @@ def run(ctx):
         'files are served through Config.OpenFile from a private directory; commands ("cmd" | getline) are exercised by C13, not here',
         'FILENAME while standard input is being read is not judged (the trace masks "-")',
         'standard input read both by the main loop and through getline < "-" in one run is not judged (two independent readers)',
+        'command line (CommandLine.tla): options -F -v -f -E -c -version, --, -, an unknown option, over every vector of <= 3 (thorough: 4 over a '
+        'reduced menu) arguments; vectors in which another argument than the probe text lands in program position, or that '
+        'name a missing operand file, are run but only required not to crash',
         'missing file operands and RS/FS other than the defaults are not generated (C06/C07 own separators)',
     ]
     ctx.build()
@@ -45,6 +63,12 @@ def run(ctx):
     ctx.tlc('Gen_MainLoop', glong, capture='cases.ndjson', timeout=1500, heap='8g', workers=4)
     ctx.cov['exhaustive'] = True
     ctx.replay('cases.ndjson', label='gen-mainloop', min_cases=1500, corrupt=corrupt)
+    # the command line of the tool (spec/CommandLine.tla): argument vectors -> program, settings, operands; the probe
+    # program is evaluated by the same AwkSem.  Run with the binary built from the tree under test.
+    os.environ['VERIF_GOAWK'] = ctx.build_goawk()
+    gcl = ctx.cfg('Gen_CommandLine', constants={'MaxArgs': 3, 'MaxArgsSmall': 3 if q else 4, 'ErrThin': 12 if q else 1, 'MaxUnits': 2 if q else 3})
+    ctx.tlc('Gen_CommandLine', gcl, capture='cases_cli.ndjson', timeout=1500, heap='8g')
+    ctx.replay('cases_cli.ndjson', label='gen-commandline', min_cases=300, corrupt=corrupt_cli)
     ntr = 300 if q else 4000
     ctx.harness(['C11', 'record', '-seed', str(ctx.seed), '-n', str(ntr), '-out', ctx.path('trace.ndjson')])
     rejects = ctx.validate_traces('Trace_MainLoop', 'Trace_MainLoop', 'trace.ndjson', label='trace-mainloop',
